@@ -105,6 +105,11 @@ func (fx *FnCtx) callFunction(st *State, pc *Term, f *ssa.Function, bindings []V
 	fc := fx.V.contractFor(f)
 	pkg, name := funcKey(f)
 	key := pkg + "." + name
+	if fc != nil {
+		fx.V.usedTrusted[key] = true
+	} else if autoInline[key] {
+		fx.V.usedAuto[key] = true
+	}
 	if fc != nil && !fc.Inline {
 		return fx.contractCall(st, pc, fc, f, args, rt)
 	}
